@@ -20,6 +20,7 @@ RULE = (
     ' Also: trees rearranged by moves before copying; a LightNodeMixin class with a plain-string __slots__; an original node moved below the copy of its former parent.'
     ' Also: links to LightNodeMixin targets, a class-level-target link class with a __setstate__ target class, _parent/_children as user data, a private slot on an underscore-named class.'
     ' Also: per-case three-level slot hierarchies in every order of first use; attribute values only copy can handle (deepcopy).'
+    ' Rounds 11-14: private/weakref slots, untouched links.'
 )
 ASSUMPTIONS = [
     "protocols 0 and 1 are only used for classes without __slots__ (restriction of Python itself, as the statement says)",
